@@ -109,6 +109,15 @@ class Sim:
         self.dirty()
         return i
 
+    def copy(self, src):
+        self.nid += 1
+        i = self.nid
+        sn = self.n[src]
+        self.n[i] = {'k': sn['k'].upper(), 'root': False, 'f': list(sn['f']), 'items': list(sn['items']), 'kv': dict(sn['kv'])}
+        self.stack.add(i)
+        self.emit('C%d=%d' % (i, src)); self.dirty()
+        return i
+
     def store(self, i, slot, t):
         self.n[i]['f'][slot] = t
         self.emit('P%d.%d=%d' % (i, slot, t)); self.dirty()
@@ -251,6 +260,15 @@ def gen_random(rng, maxnodes, maxops):
         elif r < .85:
             ts = [t for t in s.targets() if s.isreg(t)]
             if ts: s.tls_set(rng.randrange(1, 6), rng.choice(ts))
+        elif r < .855 and len(s.n) < maxnodes:
+            # copy of a usable object none of whose targets is exclusively owned
+            c = [i for i in s.subjects('SRALTEU') if not any(t in s.owned for t in s.ptrs(i))
+                 and all(s.usable(t) for t in s.ptrs(i))]
+            if c:
+                j = s.copy(rng.choice(c))
+                hs = [x for x in s.subjects('SRALTEU') if x != j]
+                if hs and rng.random() < .6: s.link(rng.choice(hs), j)
+                if rng.random() < .6: s.drop(j)
         elif r < .87:
             c = [i for i in sorted(s.stack) if s.isreg(i) and i not in s.owned and s.indegree(i) == 0
                  and s.n[i]['k'] != 'B']
@@ -414,6 +432,12 @@ def valid_script(case):
                 k = re.search(r'[A-Za-z]', rest).group(0)
                 s.nid = v[0] - 1
                 s.new(k, root=rest.endswith('!'))
+            elif c == 'C':
+                i, src = v
+                if not owned_ok() or i in s.n or not s.usable(src) or s.n[src]['k'] not in 'SRALTEU': return False
+                if any(t in s.owned or not s.usable(t) for t in s.ptrs(src)): return False
+                s.nid = i - 1
+                s.copy(src)
             elif c == 'P':
                 i, slot, t = v
                 if not s.usable(i) or slot >= len(s.n[i]['f']): return False
@@ -474,7 +498,7 @@ def parse(line):
             for kv in f[1:]:
                 if '=' not in kv: continue
                 k, v = kv.split('=', 1)
-                o[k] = v if k in ('t', 'x') else set(int(x) for x in v.split(',') if x)
+                o[k] = v if k in ('t', 'x', 'h') else set(int(x) for x in v.split(',') if x)
             out.append(o)
         else:
             out.append({'op': part})
@@ -483,6 +507,9 @@ def parse(line):
 
 def longest_chain_hint(case):
     return case.count('N')
+
+
+SPEC = {}      # case -> specification transcript of the current batch (model/spec cross-check in corr)
 
 
 def oracle(case, impl, spec):
@@ -521,6 +548,17 @@ def corr(case, impl, model):
         if a['op'] not in ('G', 'H', 'M'):
             return 'implementation: %s at observation %d' % (a['op'], n)
         if a['op'] in 'GH':
+            hy = b.get('h')
+            if hy and hy != '1111':
+                return ('observation %d: hypotheses of the theorems (wf, raw_wf, range_ok, order_ok) evaluate to %s on the '
+                        'state of the model at this collection point' % (n, hy))
+            sp = SPEC.get(case)
+            if sp:
+                r = parse(sp)[n]['r']
+                rootf = set(int(x) for x in re.findall(r'N(\d+)[A-Z]!', case))
+                if not (r <= b['m'] and b['m'] <= r | rootf):
+                    return ('observation %d: marks of the extracted model %s differ from the extracted reachability %s (+ root-flagged)'
+                            % (n, sorted(b['m'])[:10], sorted(r)[:10]))
             d = b['m'] - a['m']
             if d: return 'observation %d: marked in the model, not in the implementation: %s' % (n, sorted(d)[:8])
             d = b['a'] - a['a']
@@ -530,7 +568,7 @@ def corr(case, impl, model):
 
 def nontrivial(case, impl):
     """some collection kept at least two nodes while at least one node had been reclaimed"""
-    created = set(int(x) for x in re.findall(r'N(\d+)[A-Z]', case))
+    created = set(int(x) for x in re.findall(r'[NC](\d+)[A-Z=]', case))
     for o in parse(impl):
         if o['op'] in 'GHM' and len(o.get('a', ())) >= 2 and len(created - o['a']) >= 1:
             return True
@@ -607,7 +645,11 @@ def run(ctx):
     env = dict(os.environ, H_TIMEOUT='10' if quick else '30')
     run_impl = lambda cs: ctx.run_lines(h, cs, env=env, timeout=3600)[1]
     run_model = lambda cs: ctx.run_lines(drv, cs, args=['model'], timeout=3600)[1]
-    run_spec = lambda cs: ctx.run_lines(drv, cs, args=['spec'], timeout=3600)[1]
+    def run_spec(cs):
+        out = ctx.run_lines(drv, cs, args=['spec'], timeout=3600)[1]
+        if len(cs) > 1: SPEC.clear()
+        SPEC.update(zip(cs, out))
+        return out
     d = vlib.Differential(ctx, 'gc_graph', run_impl, run_model, run_spec, oracle, corr, nontrivial, split, join, classify)
     rp = os.environ.get('VERIF_REPLAY')
     if rp:
